@@ -135,6 +135,7 @@ func init() {
 			{Name: "pileups", TShards: 2, Run: c16Pileups},
 			{Name: "scales", QShards: 4, TShards: 8, Run: c16Scales},
 			{Name: "tilings", QShards: 4, TShards: 8, Run: c16Tilings},
+			{Name: "covered", TShards: 4, Run: c16Covered},
 		},
 	})
 }
@@ -857,5 +858,89 @@ func c16Tilings(c *Ctx) {
 			}
 			k.Nontrivial([]byte(fmt.Sprint("tilings", n)))
 		})
+	}
+}
+
+// c16Covered: features UNDER deep coverage — D identical or nested wide
+// intervals (D = 0, 1, 1023 … 1025, 1500, 2100: read pile-ups) over a range that
+// also holds a few dozen small features: abutting ones (one ends exactly where
+// the next starts), overlapping ones, ones that start or end together with
+// others, ones that begin or end where the cover does. An index that updates
+// the open set from piece to piece sees starts and ends coincide while the set
+// is deep.
+func c16Covered(c *Ctx) {
+	depths := []int{0, 1, 1023, 1024, 1025, 1500, 2100}
+	if c.Thorough {
+		depths = append(depths, 2047, 2048, 2049, 4100)
+	}
+	idx := int64(0)
+	for _, d := range depths {
+		for layout := 0; layout < c.N(6, 24); layout++ {
+			c.Case(idx, func(k *K) {
+				r := k.Rand()
+				span := 100 + r.IntN(400)
+				var starts, ends []int
+				small := 10 + r.IntN(40)
+				feature := func() {
+					w := 1 + r.IntN(span/4)
+					var s int
+					switch r.IntN(5) {
+					case 0: // abuts an earlier feature or the cover
+						if len(ends) > 0 {
+							s = ends[r.IntN(len(ends))]
+						}
+					case 1: // ends where an earlier one starts
+						if len(starts) > 0 {
+							s = starts[r.IntN(len(starts))] - w
+						}
+					case 2: // starts together with an earlier one
+						if len(starts) > 0 {
+							s = starts[r.IntN(len(starts))]
+						}
+					default:
+						s = r.IntN(span)
+					}
+					starts, ends = append(starts, s), append(ends, s+w)
+				}
+				// features before, between and after the cover intervals (their numbers interleave)
+				for i := 0; i < small/2; i++ {
+					feature()
+				}
+				for i := 0; i < d; i++ {
+					lo, hi := 0, span
+					if layout%3 == 1 { // nested covers
+						lo, hi = min(i%7, span/2), span-min(i%5, span/2-1)
+					}
+					if layout%3 == 2 && i%2 == 1 { // two covers that abut in the middle
+						lo = span / 2
+					} else if layout%3 == 2 {
+						hi = span / 2
+					}
+					starts, ends = append(starts, lo), append(ends, hi)
+				}
+				for i := small / 2; i < small; i++ {
+					feature()
+				}
+				k.Input("cover_depth", d)
+				k.Input("features", small)
+				k.Input("intervals", func() string { return fmt.Sprint(starts, ends) })
+				ix := regions.NewIndex(starts, ends)
+				qs := map[int]bool{-1: true, span + 1: true}
+				for i := range starts {
+					for dd := -1; dd <= 1; dd++ {
+						qs[starts[i]+dd], qs[ends[i]+dd] = true, true
+					}
+				}
+				for q := range qs {
+					if !checkAt(k, ix, starts, ends, q) {
+						return
+					}
+				}
+				k.Count("covered_indexes", 1)
+				k.Count("queries_under_cover", int64(len(qs)))
+				k.Nontrivial([]byte(fmt.Sprint("covered", d, layout)), []byte(fmt.Sprint(starts[:min(len(starts), 30)])))
+			})
+			idx++
+		}
 	}
 }
